@@ -23,10 +23,28 @@ func main() {
 	dump := flag.String("dumpcases", "", "also write the executed cases (JSON list) here")
 	only := flag.String("only", "", "comma list arch/FMT/op to restrict generation")
 	ids := flag.String("ids", "", "comma list of generated case ids to execute (replay)")
+	symFile := flag.String("sym", "", "execute the symbolic cases (JSON list, from ISAScen behaviours) of this file")
 	flag.Parse()
 
 	var cases []*Case
-	if *casesFile != "" {
+	if *symFile != "" {
+		b, err := os.ReadFile(*symFile)
+		if err != nil {
+			panic(err)
+		}
+		var syms []SymCase
+		if err := json.Unmarshal(b, &syms); err != nil {
+			panic(err)
+		}
+		g := &gen{r: rand.New(rand.NewSource(*seed)), mode: "sym", fk: [2]int{-1, -1}}
+		for i, s := range syms {
+			st := "emu"
+			if i%4 == 3 {
+				st = "timing"
+			}
+			cases = append(cases, g.symCase(s, st))
+		}
+	} else if *casesFile != "" {
 		b, err := os.ReadFile(*casesFile)
 		if err != nil {
 			panic(err)
@@ -35,7 +53,7 @@ func main() {
 			panic(err)
 		}
 	} else {
-		g := &gen{r: rand.New(rand.NewSource(*seed)), mode: *mode}
+		g := &gen{r: rand.New(rand.NewSource(*seed)), mode: *mode, fk: [2]int{-1, -1}}
 		var om map[string]bool
 		if *only != "" {
 			om = map[string]bool{}
@@ -52,21 +70,21 @@ func main() {
 			}
 		}
 		cases = g.cases
-		if *ids != "" {
-			want := map[int]bool{}
-			for _, k := range strings.Split(*ids, ",") {
-				n, _ := strconv.Atoi(k)
-				want[n] = true
-				// a permuted twin is only meaningful after its original
-			}
-			var sel []*Case
-			for _, c := range cases {
-				if want[c.ID] || (c.Perm != nil && want[c.Pair]) || want[c.ID+1] && hasTwin(cases, c) {
-					sel = append(sel, c)
-				}
-			}
-			cases = sel
+	}
+	if *ids != "" {
+		want := map[int]bool{}
+		for _, k := range strings.Split(*ids, ",") {
+			n, _ := strconv.Atoi(k)
+			want[n] = true
 		}
+		var sel []*Case
+		for _, c := range cases {
+			// a permuted twin is only meaningful right after its original
+			if want[c.ID] || (c.Perm != nil && want[c.Pair]) || (want[c.ID+1] && hasTwin(cases, c)) {
+				sel = append(sel, c)
+			}
+		}
+		cases = sel
 	}
 
 	f, err := os.Create(*out)
